@@ -343,6 +343,79 @@ class ServerFacts:
                         return [e.value for e in t.comparators[0].elts]
         return None
 
+    def dispatch_offsets(self):
+        """effect of the dispatcher's command branch on (restart_offset, transfer_offset), per verb and for an
+        unknown verb: the statements of the `isinstance(result, tuple)` branch are interpreted in order, `if`
+        tests evaluated with the concrete `cmd` and `f`; each offset ends up holding the OLD restart offset
+        ("restart"), the OLD transfer offset ("transfer") or 0 ("zero").  Anything the interpreter does not
+        understand gives "unknown" (which the model maps to no theorem going through)."""
+        node = self.methods["dispatcher"]
+        branch = None
+        for n in ast.walk(node):
+            if isinstance(n, ast.If):
+                t = n.test
+                if isinstance(t, ast.Call) and isinstance(t.func, ast.Name) and t.func.id == "isinstance" and ast.unparse(t.args[1]) == "tuple":
+                    branch = n.body
+        if branch is None:
+            return None
+
+        def offs_attr(e):
+            return (
+                e.attr
+                if isinstance(e, ast.Attribute) and isinstance(e.value, ast.Name) and e.value.id == "connection" and e.attr in ("restart_offset", "transfer_offset")
+                else None
+            )
+
+        def run(body, env, st):
+            for stt in body:
+                if isinstance(stt, ast.Assign) and len(stt.targets) == 1 and offs_attr(stt.targets[0]):
+                    tgt = offs_attr(stt.targets[0])
+                    if isinstance(stt.value, ast.Constant) and stt.value.value == 0:
+                        st[tgt] = "zero"
+                    elif offs_attr(stt.value):
+                        st[tgt] = st[offs_attr(stt.value)]
+                    else:
+                        st[tgt] = "unknown"
+                elif isinstance(stt, ast.If):
+                    try:
+                        val = eval(compile(ast.Expression(stt.test), "<dispatcher>", "eval"), {"__builtins__": {}}, dict(env))
+                    except Exception:
+                        st["restart_offset"] = st["transfer_offset"] = "unknown"
+                        continue
+                    run(stt.body if val else stt.orelse, env, st)
+            return st
+
+        out = {}
+        for verb in self.verbs + [None]:
+            env = {"cmd": verb if verb is not None else "\x00unknown", "f": (self.mapping.get(verb) if verb is not None else None), "rest": ""}
+            st = run(branch, env, {"restart_offset": "restart", "transfer_offset": "transfer"})
+            out[verb] = (st["restart_offset"], st["transfer_offset"])
+        return out
+
+    def offset_fields(self):
+        """which connection attribute each transfer worker seeks to: `await file.seek(connection.<attr>)`"""
+        out = {}
+        for verb in self.verbs:
+            v = verb
+            while v in self.delegate:
+                v = self.delegate[v]
+            node = self.methods[self.method_of[v]]
+            for sub in node.body:
+                if isinstance(sub, ast.AsyncFunctionDef) and sub.name.endswith("_worker"):
+                    attrs = set()
+                    for n in ast.walk(sub):
+                        if isinstance(n, ast.Call) and isinstance(n.func, ast.Attribute) and n.func.attr == "seek":
+                            for a in n.args:
+                                if isinstance(a, ast.Attribute) and isinstance(a.value, ast.Name) and a.value.id == "connection":
+                                    attrs.add(a.attr)
+                    # every other mention of an *_offset attribute in the worker must be the same one
+                    for n in ast.walk(sub):
+                        if isinstance(n, ast.Attribute) and isinstance(n.value, ast.Name) and n.value.id == "connection" and n.attr.endswith("_offset"):
+                            attrs.add(n.attr)
+                    if attrs:
+                        out[verb] = sorted(attrs)[0] if len(attrs) == 1 else "mixed:" + ",".join(sorted(attrs))
+        return out
+
     def censor_commands(self):
         node = self.methods["parse_command"]
         args = node.args
@@ -422,7 +495,6 @@ def gen_server():
     ws = F.worker_stacks()
     closing = F.closing_codes()
     codes = F.reply_codes()
-    keep = F.restart_keep_set()
     censor = F.censor_commands()
     sk = F.stream_kwargs()
     lines = []
@@ -481,11 +553,23 @@ def gen_server():
     for v in verbs:
         lines.append("  | .%s => [%s]" % (lid(v), ", ".join(str(int(c)) for c in codes[v])))
     lines.append("")
-    lines.append("/-- dispatcher: verbs for which `restart_offset` is NOT reset -/")
-    if keep is None:
-        lines.append("def restartKeep : List String := [\"<translator could not find the reset test>\"]")
-    else:
-        lines.append("def restartKeep : List String := [%s]" % ", ".join(lean_str(k) for k in keep))
+    do = F.dispatch_offsets() or {}
+    lines.append("/-- what an offset holds after the dispatcher's command branch ran: the old restart offset, the old")
+    lines.append("    transfer offset, zero — or something the translator could not read -/")
+    lines.append("inductive OffSrc where | restart | transfer | zero | unknown deriving DecidableEq, Repr")
+    lines.append("/-- (restart_offset, transfer_offset) after dispatch, per verb -/")
+    lines.append("def Verb.dispatchOffsets : Verb → OffSrc × OffSrc")
+    for v in verbs:
+        a, b = do.get(v, ("unknown", "unknown"))
+        lines.append("  | .%s => (.%s, .%s)" % (lid(v), a, b))
+    a, b = do.get(None, ("unknown", "unknown"))
+    lines.append("/-- the same for a verb that is not in `commands_mapping` -/")
+    lines.append("def dispatchOffsetsUnknown : OffSrc × OffSrc := (.%s, .%s)" % (a, b))
+    of = F.offset_fields()
+    lines.append("/-- the connection attribute a transfer worker takes its offset from (\"\" = the verb has no such worker) -/")
+    lines.append("def Verb.offsetField : Verb → String")
+    for v in verbs:
+        lines.append("  | .%s => %s" % (lid(v), lean_str(of.get(v, ""))))
     lines.append("")
     lines.append("/-- the predicate guarding `int(rest)` in the REST handler: `rest.<pred>()` -/")
     lines.append("def restPredicate : String := %s" % lean_str(F.rest_predicate()))
